@@ -169,6 +169,53 @@ Definition is_colour_code (v : N) : bool := (v =? 38) || (v =? 48) || (v =? 58).
 Definition single (p : param) : option pnum :=
   match p with [x] => Some x | _ => None end.
 
+Definition indexed (n : pnum) : option rgba :=
+  match pval n with Some i => palette256 i | None => None end.
+
+(* the semicolon forms after a colour code:  5 ; n   or   2 ; r ; g ; b  (each a parameter of
+   its own, without sub-parameters); returns the action and the parameters that follow *)
+Definition is_two (k : pnum) : bool := match pval k with Some v => v =? 2 | None => false end.
+Definition is_five (k : pnum) : bool := match pval k with Some v => v =? 5 | None => false end.
+
+Definition semicolon_colour (code : N) (rest : list param) : option (action * list param) :=
+  match rest with
+  | [k] :: more =>
+      if is_five k then
+        match more with
+        | [n] :: rest2 => Some (colour_action code (indexed n), rest2)
+        | _ => None
+        end
+      else if is_two k then
+        match more with
+        | [r] :: [g] :: [b] :: rest4 => Some (colour_action code (direct r g b), rest4)
+        | _ => None
+        end
+      else None
+  | _ => None
+  end.
+
+(* a parameter with sub-parameters: code : sub : sub ... *)
+Definition colon_action (code : N) (subs : list pnum) : action :=
+  if code =? 4 then
+    match subs with
+    | [PNum k] =>
+        if k =? 0 then AUnderline UNone else if k =? 1 then AUnderline UStraight
+        else if k =? 2 then AUnderline UDouble else if k =? 3 then AUnderline UCurly
+        else if k =? 4 then AUnderline UDotted else if k =? 5 then AUnderline UDashed
+        else AMalformed
+    | _ => AMalformed
+    end
+  else if is_colour_code code then
+    match subs with
+    | [k; n] => if is_five k then colour_action code (indexed n) else AMalformed
+    | [k; r; g; b] => if is_two k then colour_action code (direct r g b) else AMalformed
+    | [k; cs; r; g; b] =>
+        if is_two k then match pval cs with Some _ => colour_action code (direct r g b) | None => AMalformed end
+        else AMalformed
+    | _ => AMalformed
+    end
+  else AMalformed.
+
 (* the actions of a parameter list, left to right; fuel = number of parameters *)
 Fixpoint actions (fuel : nat) (ps : list param) : list action :=
   match fuel with
@@ -184,62 +231,16 @@ Fixpoint actions (fuel : nat) (ps : list param) : list action :=
               | None => [AMalformed]
               | Some v =>
                   if is_colour_code v then
-                    (* semicolon forms: 5 ; n   or   2 ; r ; g ; b *)
-                    match rest with
-                    | k :: rest1 =>
-                        match option_map pval (single k) with
-                        | Some (Some 5) =>
-                            match rest1 with
-                            | n :: rest2 =>
-                                match single n with
-                                | Some n => colour_action v (match pval n with Some i => palette256 i | None => None end)
-                                            :: actions fuel' rest2
-                                | None => [AMalformed]
-                                end
-                            | [] => [AMalformed]
-                            end
-                        | Some (Some 2) =>
-                            match rest1 with
-                            | r :: g :: b :: rest4 =>
-                                match single r, single g, single b with
-                                | Some r, Some g, Some b => colour_action v (direct r g b) :: actions fuel' rest4
-                                | _, _, _ => [AMalformed]
-                                end
-                            | _ => [AMalformed]
-                            end
-                        | _ => [AMalformed]
-                        end
-                    | [] => [AMalformed]
+                    match semicolon_colour v rest with
+                    | Some (a, rest') => a :: actions fuel' rest'
+                    | None => [AMalformed]
                     end
                   else simple_action v :: actions fuel' rest
               end
           | x :: subs =>
               (match pval x with
                | None => AMalformed
-               | Some v =>
-                   if v =? 4 then
-                     match subs with
-                     | [PNum 0] => AUnderline UNone
-                     | [PNum 1] => AUnderline UStraight
-                     | [PNum 2] => AUnderline UDouble
-                     | [PNum 3] => AUnderline UCurly
-                     | [PNum 4] => AUnderline UDotted
-                     | [PNum 5] => AUnderline UDashed
-                     | _ => AMalformed
-                     end
-                   else if is_colour_code v then
-                     match subs with
-                     | [k; n] => if match pval k with Some 5 => true | _ => false end
-                                 then colour_action v (match pval n with Some i => palette256 i | None => None end)
-                                 else AMalformed
-                     | [k; r; g; b] => if match pval k with Some 2 => true | _ => false end
-                                       then colour_action v (direct r g b) else AMalformed
-                     | [k; cs; r; g; b] => if match pval k with Some 2 => true | _ => false end
-                                           then match pval cs with Some _ => colour_action v (direct r g b) | None => AMalformed end
-                                           else AMalformed
-                     | _ => AMalformed
-                     end
-                   else AMalformed
+               | Some v => colon_action v subs
                end) :: actions fuel' rest
           end
       end
@@ -264,6 +265,10 @@ Definition rapply (m : face_modify) (r : rface) : rface :=
       (or_keep (m_underline m) (r_ul r))
       (or_keep (m_bold m) (r_bold r)) (or_keep (m_italic m) (r_italic r))
       (or_keep (m_blink m) (r_blink r)) (r_reverse r) (or_keep (m_strike m) (r_strike r)).
+
+(* the rendition a Face command asks for, minus what a modification record cannot say *)
+Definition expressible (r : rface) : rface :=
+  mkR (r_fg r) (r_bg r) (r_ul r) (r_bold r) (r_italic r) (r_blink r) false (r_strike r).
 
 (* ---- domain ---- *)
 Definition is_malformed (a : action) : bool := match a with AMalformed => true | _ => false end.
